@@ -6,6 +6,15 @@ props = [json.loads(l) for l in open(os.path.join(V, "properties.jsonl"))]
 
 # property -> (level text, level note, technique, design_ref)
 CLAIMED = {
+ "C12": ("TLC (MC_C12) models the async part of signature conversion (async and no async_trait => fn -> impl ::core::future::Future<Output = R> "
+         "[+ Send], R = () when omitted, Send unless ?Send) and the re-application of async_trait to generated traits and impls over fn / mod / "
+         "trait / impl-block inputs x five return shapes x ?Send, and checks Level 1 (Req!C12) on the model. Every input is rendered with three "
+         "witnesses, expanded by the real macro and compiled: the future's Output ascribed to exactly the declared type and driven to completion, a "
+         "generic caller requiring Send (must compile by default, must be rejected under ?Send), a body holding a !Send value across an await "
+         "(must be rejected by default, accepted under ?Send). TLC (Trace_C12) judges these verdicts and the projected signature/attributes.",
+         "46 inputs x 3 renderings, all replayed; rustc decides the witnesses; run-time equality of results for async fns is C01's part",
+         "TLA+ model of async signature conversion checked by TLC + replay with positive and negative compile witnesses validated by TLC",
+         "7/C12"),
  "C13": ("TLC (MC_C13) models where the generator puts the trait and with which visibility (fn: next to the function with the requested "
          "visibility; mod: inside the module as pub(super) or as requested plus `vis use m::T;`; trait: the delegation-target trait copies the "
          "trait's visibility) and checks that naming it from each probe location is possible iff the REQUESTED visibility allows it "
